@@ -83,6 +83,13 @@ THEOREMS = [
     "branch_physical_balanced", "branch_over_unlock_witness", "branch_write_after_read_refused",
     "branch_over_unlock_refused_partial", "branch_refused_unchanged_partial", "branch_ok_edge",
     "branchG_physical_balanced", "branchG_refused_unchanged", "branchG_over_unlock_refused", "branchG_ok_edge",
+    "branchG_consistent_step", "branchG_consistent_run", "branchG_refused_unchanged_run",
+    "lf_ok_edge", "tree_physical_balanced", "tree_over_unlock_witness", "tree_ok_edge",
+    "tree_refused_unchanged_partial", "tree_write_after_read_refused",
+    "treeG_over_unlock_refused", "treeG_refused_unchanged", "treeG_physical_balanced",
+    "repow_no_group", "repo_unlock_in_write_group_witness", "repowF_unlock_in_write_group",
+    "repowF_inv_step", "repowF_physical_balanced",
+    "branchS_no_failure", "branchS_fixed_eq", "branch_unlock_save_failure_witness",
 ]
 RULE = ("all operation sequences over {lock_read, lock_write(None), lock_write(known token), "
         "lock_write(wrong token), unlock} up to a length bound (exhaustive) and random ones up to length 40, "
@@ -105,9 +112,11 @@ OPS = ["r", "w", "wA", "wB", "u"]
 
 # ---------------------------------------------------------------- fakes
 class FakePhys:
-    """recording physical lock; `ext`: a lock with nonce NONCE pre-exists on disk"""
+    """recording physical lock; `ext`: a lock with nonce NONCE pre-exists on disk;
+    `rb`: lock_read() is refused with LockContention (a contended OS read lock)"""
 
-    def __init__(self, ext=False):
+    def __init__(self, ext=False, rb=False):
+        self.rb = rb
         self.held = None
         self.via_tok = False
         self.disk = NONCE if ext else None
@@ -116,6 +125,9 @@ class FakePhys:
 
     # LockableFiles calls lock_class(transport, esc_name, file_modebits=, dir_modebits=)
     def lock_read(self):
+        if self.rb:
+            from breezy import errors
+            raise errors.LockContention(self)
         if self.held:
             self.anomalies.append("lock_read while held %s" % self.held)
         self.held = "r"
@@ -211,6 +223,10 @@ def _exc(e):
         return "E:LockContention"
     if t is errors.LockError:
         return "E:LockError"
+    if t is errors.NotWriteLocked:
+        return "E:NotWriteLocked"
+    if t is errors.BzrError:
+        return "E:BzrError"
     return "E:" + t.__name__
 
 
@@ -236,6 +252,12 @@ def _call(obj, op):
             v = obj.lock_write(token=BAD)
         elif op == "u":
             v = obj.unlock()
+        elif op == "t":
+            v = obj.lock_tree_write()
+        elif op == "g":
+            v = obj.start_write_group()
+        elif op == "a":
+            v = obj.abort_write_group()
         else:
             raise ValueError(op)
     except Exception as e:  # noqa
@@ -286,20 +308,56 @@ def core_repo(r):
 
 # ---------------------------------------------------------------- subjects
 class Subject:
-    """one machine kind: fresh(ext) -> object under test; targets; dumps"""
+    """one machine kind: fresh(ext, rb) -> object under test; targets; dumps; and the
+    specification side of the oracle (who holds which layer, which physical read locks
+    a call needs, which layers a write request needs free of read locks) -- all of it
+    independent of the Lean model"""
     kind = None
     targets = [""]
+    rbflags = ["x"]          # layers whose physical lock can be made to refuse lock_read()
+    tops = {"": OPS}
 
     def ops(self):
-        return [t + o for t in self.targets for o in OPS]
+        return [t + o for t in self.targets for o in self.tops.get(t, OPS)]
+
+    def split(self, op):
+        return ("", op) if len(self.targets) == 1 else (op[0], op[1:])
+
+    def layer(self, tgt):
+        return ""
+
+    def holders(self, key, bal):
+        return bal[key]
+
+    def read_chain(self, tgt, o):
+        return [("", "x")] if o == "r" else []
+
+    def modes(self, tgt, o):
+        return {"": "r" if o == "r" else "w"}
+
+    def write_needs(self, tgt, o, bal):
+        return [""] if o.startswith("w") else []
+
+    def keys(self):
+        return [""]
+
+    # operations that are not lock calls (write groups): expected result, or None = no expectation
+    def aux_expect(self, o, bal, mode):
+        return None
+
+    def aux_done(self, o, ok, bal):
+        pass
+
+    def model_kind(self):
+        return self.kind
 
 
 class SubjCL(Subject):
     kind = "cl"
 
-    def fresh(self, ext):
+    def fresh(self, ext, rb=""):
         from breezy.counted_lock import CountedLock
-        self.obj = CountedLock(FakePhys(ext))
+        self.obj = CountedLock(FakePhys(ext, "x" in rb))
 
     def call(self, op):
         return _call(self.obj, op)
@@ -319,12 +377,12 @@ class SubjCL(Subject):
 class SubjLF(Subject):
     kind = "lf"
 
-    def fresh(self, ext):
+    def fresh(self, ext, rb=""):
         from breezy.bzr.lockable_files import LockableFiles
         from dromedary.memory import MemoryTransport
         if not hasattr(self, "_t"):
             self._t = MemoryTransport()
-        self.obj = LockableFiles(self._t, "lock", lambda *a, **k: FakePhys(ext))
+        self.obj = LockableFiles(self._t, "lock", lambda *a, **k: FakePhys(ext, "x" in rb))
 
     def call(self, op):
         return _call(self.obj, op)
@@ -340,27 +398,37 @@ class SubjLF(Subject):
 
 
 class _Stack:
-    """a real branch + PackRepository, re-armed with fresh fakes for every sequence"""
+    """a real working tree + branch + PackRepository, re-armed with fresh fakes for every sequence"""
     _wt = None
+    with_tree = False
 
     @classmethod
-    def get(cls):
-        if cls._wt is None:
-            cls._wt = env.make_tree("2a")
-            cls._wt.commit("one")
+    def get(cls, with_tree):
+        if _Stack._wt is None:
+            _Stack._wt = env.make_tree("2a")
+            _Stack._wt.commit("one")
+        if with_tree:
+            from breezy.workingtree import WorkingTree
+            wt = WorkingTree.open(_Stack._wt.basedir)
+            return wt, wt.branch
         from breezy.branch import Branch
-        return Branch.open(cls._wt.branch.base)
+        return None, Branch.open(_Stack._wt.branch.base)
 
-    def arm(self, ext):
+    def arm(self, ext, rb=""):
         b = getattr(self, "branch", None)
+        wt = getattr(self, "tree", None)
         ok = b is not None
         if ok:
+            b.conf_store = None
             try:
                 n = 0
-                while b.is_locked() and n < 100:
+                while wt is not None and wt.is_locked() and n < 100:
+                    wt.unlock()
+                    n += 1
+                while b.is_locked() and n < 200:
                     b.unlock()
                     n += 1
-                while b.repository.is_locked() and n < 200:
+                while b.repository.is_locked() and n < 300:
                     b.repository.unlock()
                     n += 1
             except Exception:  # noqa
@@ -370,20 +438,37 @@ class _Stack:
                 and b.control_files._lock_count == 0 and r.control_files._lock_count == 0 \
                 and b.control_files._transaction is None and r.control_files._transaction is None \
                 and b.control_files._lock_mode is None and r.control_files._lock_mode is None
+            if ok and wt is not None:
+                tc = wt._control_files
+                ok = not wt.is_locked() and tc._lock_count == 0 and tc._transaction is None \
+                    and tc._lock_mode is None and getattr(wt, "_dirstate", None) is None
         if not ok:
-            self.branch = b = self.get()
+            # the sequence left the stack in a state it cannot be unlocked from (a caller released a
+            # lock behind an upper layer's back): drop the objects, but give back the OS lock on the
+            # dirstate file, which would otherwise block the next tree object of this process
+            ds = getattr(wt, "_dirstate", None) if wt is not None else None
+            if ds is not None and getattr(ds, "_lock_token", None) is not None:
+                try:
+                    ds.unlock()
+                except Exception:  # noqa
+                    pass
+            self.tree, self.branch = self.get(self.with_tree)
+            wt, b = self.tree, self.branch
         r = b.repository
-        for cf in (b.control_files, r.control_files):
-            cf._lock = FakePhys(ext)
+        for cf, flag in ((b.control_files, "c"), (r.control_files, "x" if self.kind == "repo" else "p")):
+            cf._lock = FakePhys(ext, flag in rb)
             cf._token_from_lock = None
+        if wt is not None:
+            wt._control_files._lock = FakePhys(ext, "t" in rb)
+            wt._control_files._token_from_lock = None
         r._fallback_repositories = [FakeFallback(), FakeFallback()]
 
 
 class SubjRepo(Subject, _Stack):
     kind = "repo"
 
-    def fresh(self, ext):
-        self.arm(ext)
+    def fresh(self, ext, rb=""):
+        self.arm(ext, rb)
         self.obj = self.branch.repository
 
     def call(self, op):
@@ -403,12 +488,68 @@ class SubjRepo(Subject, _Stack):
                 ("PackRepository/control_files", None, None, r.control_files._lock.log, r.control_files._lock.anomalies)]
 
 
+class SubjRepoW(SubjRepo):
+    """the repository with write groups: `g` start_write_group, `a` abort_write_group"""
+    kind = "repow"
+    rbflags = []
+    tops = {"": OPS + ["g", "a"]}
+    _fx = []
+
+    def fresh(self, ext, rb=""):
+        SubjRepo.fresh(self, ext, rb)
+        self.wg = False
+
+    def dump(self):
+        return dump_repo(self.obj) + "," + ("G" if self.obj._write_group is not None else "-")
+
+    def core(self):
+        return core_repo(self.obj) + (self.obj._write_group is not None,)
+
+    def aux_expect(self, o, bal, mode):
+        if o == "g":
+            if not (bal[""] > 0 and mode.get("") == "w"):
+                return "E:NotWriteLocked"
+            return "E:BzrError" if self.wg else "ok:~"
+        if o == "a":
+            return "ok:~" if self.wg else "E:BzrError"
+        return None
+
+    def aux_done(self, o, ok, bal):
+        if ok and o == "g":
+            self.wg = True
+        elif ok and o == "a":
+            self.wg = False
+        elif ok and o == "u" and bal[""] == 0:
+            self.wg = False
+
+    def model_kind(self):
+        """which unlock the working tree implements, probed on the witness: `F` = the fallbacks stay
+        locked after unlock in a write group (as found), `T` = they are released (proposed fix)"""
+        if not self._fx:
+            SubjRepo.fresh(self, False)
+            r = self.obj
+            r.lock_write()
+            r.start_write_group()
+            r.unlock()
+            self._fx.append("T" if r._fallback_repositories[0].depth == 0 else "F")
+        return "repow " + self._fx[0]
+
+
+class _RaisingStore:
+    """a branch config store whose save_changes() fails (disk full, permission denied ...)"""
+
+    def save_changes(self):
+        raise OSError(28, "No space left on device")
+
+
 class SubjBranch(Subject, _Stack):
     kind = "branch"
     targets = ["b", "p"]
+    rbflags = ["c", "p"]
+    tops = {}
 
-    def fresh(self, ext):
-        self.arm(ext)
+    def fresh(self, ext, rb=""):
+        self.arm(ext, rb)
         self.obj = self.branch
 
     def call(self, op):
@@ -422,6 +563,34 @@ class SubjBranch(Subject, _Stack):
         b = self.obj
         return (core_lf(b.control_files), bool(b.is_locked()), core_repo(b.repository))
 
+    # --- specification
+    def keys(self):
+        return ["b", "p+"]
+
+    def layer(self, tgt):
+        return "b" if tgt == "b" else "p+"
+
+    def holders(self, key, bal):
+        if key == "p+":     # the repository under a branch is additionally held once while the branch is locked
+            return bal["p"] + (1 if bal["b"] > 0 else 0)
+        return bal[key]
+
+    def read_chain(self, tgt, o):
+        if o != "r":
+            return []
+        return [("p+", "p"), ("b", "c")] if tgt == "b" else [("p+", "p")]
+
+    def modes(self, tgt, o):
+        m = "r" if o == "r" else "w"
+        return {"b": m, "p+": m} if tgt == "b" else {"p+": m}
+
+    def write_needs(self, tgt, o, bal):
+        if not o.startswith("w"):
+            return []
+        if tgt == "b":
+            return ["b"] if bal["b"] > 0 else ["p+"]
+        return ["p+"]
+
     def layers(self):
         b = self.obj
         r = b.repository
@@ -433,7 +602,113 @@ class SubjBranch(Subject, _Stack):
                  r.control_files._lock.anomalies)]
 
 
-SUBJECTS = {"cl": SubjCL, "lf": SubjLF, "repo": SubjRepo, "branch": SubjBranch}
+class SubjBranchS(SubjBranch):
+    """the branch stack with a config store whose save_changes() raises at the last unlock"""
+    kind = "branchs"
+    rbflags = []
+    _fx = []
+
+    def fresh(self, ext, rb=""):
+        SubjBranch.fresh(self, ext, rb)
+        self.obj.conf_store = _RaisingStore()
+
+    def model_kind(self):
+        """`F`: unlock with a failing config save returns None and keeps every lock (as found);
+        `T`: the locks are released all the same (proposed fix)"""
+        if not self._fx:
+            self.fresh(False)
+            b = self.obj
+            b.lock_write()
+            _call(b, "u")
+            self._fx.append("F" if b.is_locked() else "T")
+        return "branchS " + self._fx[0]
+
+
+class SubjTree(Subject, _Stack):
+    """a real bzr working tree over its branch and repository, all three control-files
+    locks replaced by recording fakes (kind `ftree`; the fake-free run is kind `tree`)"""
+    kind = "ftree"
+    with_tree = True
+    targets = ["t", "b", "p"]
+    rbflags = ["t", "c", "p"]
+    tops = {"t": ["r", "t", "w", "u"]}
+
+    def fresh(self, ext, rb=""):
+        self.arm(ext, rb)
+        self.obj = self.tree
+
+    def call(self, op):
+        wt = self.obj
+        tgt = wt if op[0] == "t" else wt.branch if op[0] == "b" else wt.branch.repository
+        return _call(tgt, op[1:])
+
+    def dump(self):
+        return dump_lf(self.obj._control_files) + "|" + dump_branch(self.obj.branch)
+
+    def core(self):
+        wt = self.obj
+        b = wt.branch
+        return (core_lf(wt._control_files), bool(wt.is_locked()), core_lf(b.control_files), bool(b.is_locked()),
+                core_repo(b.repository))
+
+    # --- specification: every tree lock holds one branch lock
+    def keys(self):
+        return ["t", "b+", "p+"]
+
+    def layer(self, tgt):
+        return {"t": "t", "b": "b+", "p": "p+"}[tgt]
+
+    def holders(self, key, bal):
+        if key == "b+":
+            return bal["b"] + bal["t"]
+        if key == "p+":
+            return bal["p"] + (1 if bal["b"] + bal["t"] > 0 else 0)
+        return bal[key]
+
+    def read_chain(self, tgt, o):
+        if tgt == "t":
+            return {"r": [("p+", "p"), ("b+", "c"), ("t", "t")], "t": [("p+", "p"), ("b+", "c")]}.get(o, [])
+        if o != "r":
+            return []
+        return [("p+", "p"), ("b+", "c")] if tgt == "b" else [("p+", "p")]
+
+    def modes(self, tgt, o):
+        if tgt == "t":
+            return {"r": {"t": "r", "b+": "r", "p+": "r"}, "t": {"t": "w", "b+": "r", "p+": "r"},
+                    "w": {"t": "w", "b+": "w", "p+": "w"}}.get(o, {})
+        m = "r" if o == "r" else "w"
+        return {"b+": m, "p+": m} if tgt == "b" else {"p+": m}
+
+    def write_needs(self, tgt, o, bal):
+        bheld = bal["b"] + bal["t"] > 0
+        if tgt == "t":
+            if o == "w":
+                return (["b+"] if bheld else ["p+"]) + ["t"]
+            return ["t"] if o == "t" else []
+        if not o.startswith("w"):
+            return []
+        if tgt == "b":
+            return ["b+"] if bheld else ["p+"]
+        return ["p+"]
+
+    def layers(self):
+        wt = self.obj
+        b = wt.branch
+        r = b.repository
+        fb = r._fallback_repositories
+        return [("WorkingTree/control_files", "t", bool(wt.is_locked()), wt._control_files._lock.log,
+                 wt._control_files._lock.anomalies),
+                ("BzrBranch/control_files", "b+", bool(b.is_locked()), b.control_files._lock.log,
+                 b.control_files._lock.anomalies),
+                ("PackRepository/fallbacks", "p+", bool(r.is_locked()), fb[0].log, fb[0].anomalies + fb[1].anomalies),
+                ("PackRepository/control_files", None, None, r.control_files._lock.log,
+                 r.control_files._lock.anomalies)]
+
+
+SUBJECTS = {"cl": SubjCL, "lf": SubjLF, "repo": SubjRepo, "branch": SubjBranch, "ftree": SubjTree,
+            "repow": SubjRepoW, "branchs": SubjBranchS}
+WG_LEAK = "repo-unlock-in-write-group-keeps-fallbacks-locked"
+SAVE_LEAK = "branch-unlock-config-save-failure-keeps-lock"
 
 
 # ---------------------------------------------------------------- oracle
@@ -447,17 +722,15 @@ def classify(kind, op, bal, _unused=None):
     through a tree (`tu` with the branch unlocked and the repository held) -- it
     gets no family and is a plain VIOLATION."""
     t, b = bal.get("t", 0), bal.get("b", 0)
-    if kind == "tree" and op == "tu" and t == 0 and b > 0:
+    if kind in ("tree", "ftree") and op == "tu" and t == 0 and b > 0:
         return "tree-over-unlock-releases-branch"
+    # new (not yet triaged): the last unlock of a write-locked PackRepository while a write group
+    # is active; the last unlock of a branch whose config store fails to save
+    if kind == "repow" and op == "u" and bal.get("", 0) == 1 and getattr(_unused, "wg", False):
+        return WG_LEAK
+    if kind == "branchs" and op == "bu" and b == 1:
+        return SAVE_LEAK
     return None
-
-
-def _holders(key, bal):
-    """number of holders of a layer: its own balance; the repository under a
-    branch is additionally held once while the branch is locked"""
-    if key == "p+":
-        return bal["p"] + (1 if bal["b"] > 0 else 0)
-    return bal[key]
 
 
 _variant = []
@@ -470,96 +743,152 @@ def branch_variant(subj):
     GitBranch.unlock does: Model Branch.stepG).  Both variants have their theorems."""
     if not _variant:
         subj.fresh(False)
-        r = subj.obj.repository
+        b = subj.branch
+        r = b.repository
         r.lock_read()
-        _call(subj.obj, "u")
+        _call(b, "u")
         _variant.append("guarded" if r.is_locked() else "unguarded")
         if r.is_locked():
             r.unlock()
     return _variant[0]
 
 
-def run_sequence(ctx, subj, ext, ops, record=True):
+_tvariant = []
+
+
+def ftree_variant(subj):
+    """the same probe for WorkingTree.unlock on the fake-lock stack: `unguarded` (model
+    Tree.step, the committed known finding) or `guarded` (model Tree.stepG)"""
+    if not _tvariant:
+        subj.fresh(False)
+        wt = subj.tree
+        wt.branch.lock_read()
+        _call(wt, "u")
+        _tvariant.append("guarded" if wt.branch.is_locked() else "unguarded")
+        if wt.branch.is_locked():
+            wt.branch.unlock()
+    return _tvariant[0]
+
+
+_fam_seen = {}
+
+
+FAMILY_NOTE = {
+    WG_LEAK: "the last unlock() of a write-locked PackRepository with an active write group returns None "
+             "(BzrError discarded by only_raises) and unlocks the repository, but leaves its fallback "
+             "repositories locked",
+    SAVE_LEAK: "the last unlock() of a branch whose config store fails in save_changes() returns None "
+               "(exception discarded by only_raises) and releases nothing: branch, repository and the "
+               "physical lock stay held",
+}
+
+
+def report(ctx, case, what, family=None):
+    """ctx.violation, but a classified family is reported with at most 25 concrete inputs per run
+    (ctx keeps the inputs of the first 200 violations only; an unclassified violation must not
+    lose its input to hundreds of instances of a known one)"""
+    if family is not None:
+        _fam_seen[family] = _fam_seen.get(family, 0) + 1
+        if _fam_seen[family] > 25:
+            ctx.count("more-instances:" + family)
+            return
+    if family in FAMILY_NOTE:
+        what = "%s -- %s" % (what, FAMILY_NOTE[family])
+    ctx.violation(case, what, family=family)
+
+
+def run_sequence(ctx, subj, ext, ops, record=True, rb=""):
     """drive the real object, evaluate the oracle after every step; returns the
     per-step observation strings (for the comparison with the model)"""
     kind = subj.kind
-    subj.fresh(ext)
+    subj.fresh(ext, rb)
     case = dict(kind=kind, ext=ext, ops=list(ops))
+    if rb:
+        case["rb"] = rb
     bal = {t: 0 for t in subj.targets}
     mode = {}      # mode of the outermost lock per layer
     obs = []
     nontrivial = False
     prev_logs = [len(l[3]) for l in subj.layers()]
-    nviol = len(ctx.violations)
+    dead = [False]
+
+    def viol(c, what, family=None):
+        dead[0] = True
+        report(ctx, c, what, family=family)
     for i, op in enumerate(ops):
-        tgt = op[0] if len(subj.targets) > 1 else ""
-        o = op[1:] if len(subj.targets) > 1 else op
+        tgt, o = subj.split(op)
         before = subj.core()
-        below = 0
-        if kind == "branch" and tgt == "b":
-            below = bal["p"]
         res = subj.call(op)
-        if nviol < 0 or len(ctx.violations) > nviol:
+        if dead[0]:
             # an earlier step already violated the property: the balances no longer
             # describe the object; keep observing for the comparison with the model
             obs.append(res + "/" + subj.dump())
             continue
         after = subj.core()
         ok = res.startswith("ok:")
+        fam = classify(kind, op, bal, subj)
         # --- refused calls
         if not ok:
             nontrivial = True
             if after != before:
-                ctx.violation(dict(case, step=i), "%s: refused call %s (%s) changed the lock state: %r -> %r"
-                              % (kind, op, res, before, after), family=classify(kind, op, bal, below))
+                viol(dict(case, step=i), "%s: refused call %s (%s) changed the lock state: %r -> %r"
+                              % (kind, op, res, before, after), family=fam)
         # --- expected refusals / successes, from the balances
-        lkey = "p+" if (kind == "branch" and tgt == "p") else tgt     # the layer the call addresses
-        h = _holders(lkey, bal)
-        if o == "u":
+        lkey = subj.layer(tgt)     # the layer the call addresses
+        h = subj.holders(lkey, bal)
+        blocked = [k for k, flag in subj.read_chain(tgt, o) if flag in rb and subj.holders(k, bal) == 0]
+        auxwant = subj.aux_expect(o, bal, mode)
+        if auxwant is not None:
+            if res != auxwant:
+                viol(dict(case, step=i), "%s: %s gives %s, expected %s" % (kind, op, res, auxwant))
+        elif o == "u":
             if h == 0 and res != "E:LockNotHeld":
-                ctx.violation(dict(case, step=i), "%s: unlock %s with no lock held gives %s, not LockNotHeld" % (kind, op, res))
+                viol(dict(case, step=i), "%s: unlock %s with no lock held gives %s, not LockNotHeld" % (kind, op, res))
             elif h > 0 and bal[tgt] == 0:
-                if kind == "branch" and tgt == "b" and res != "E:LockNotHeld":
-                    ctx.violation(dict(case, step=i), "%s: unlock of an unlocked branch gives %s" % (kind, res))
+                if tgt == "b" and kind == "branch" and res != "E:LockNotHeld":
+                    viol(dict(case, step=i), "%s: unlock of an unlocked branch gives %s" % (kind, res))
                 if ok:
-                    # the caller released a repository lock that the branch holds (caller misuse, the
-                    # repository object cannot tell its holders apart): stop judging this sequence
-                    nviol = -1
+                    # the caller released a lock that an upper layer (or another handle) holds -- caller
+                    # misuse, the object cannot tell its holders apart: stop judging this sequence
+                    dead[0] = True
             elif bal[tgt] > 0 and not ok:
-                ctx.violation(dict(case, step=i), "%s: unlock %s of a held lock refused: %s" % (kind, op, res))
-        elif o.startswith("w"):
-            ro = (h > 0 and mode.get(lkey) == "r") or \
-                 (kind == "branch" and tgt == "b" and bal["b"] == 0 and _holders("p+", bal) > 0 and mode.get("p+") == "r")
+                viol(dict(case, step=i), "%s: unlock %s of a held lock refused: %s" % (kind, op, res))
+        else:
+            ro = [k for k in subj.write_needs(tgt, o, bal) if subj.holders(k, bal) > 0 and mode.get(k) == "r"]
             if ro and res != "E:ReadOnly":
-                ctx.violation(dict(case, step=i), "%s: lock_write (%s) while read-locked gives %s, not ReadOnlyError"
-                              % (kind, op, res))
-        elif o == "r" and not ok:
-            ctx.violation(dict(case, step=i), "%s: lock_read (%s) refused: %s" % (kind, op, res))
+                viol(dict(case, step=i), "%s: write lock (%s) while %s is read-locked gives %s, not ReadOnlyError"
+                              % (kind, op, ro[0] or kind, res))
+            elif blocked and not ro and res != "E:LockContention":
+                viol(dict(case, step=i), "%s: %s needs the physical read lock of %s, which refuses, "
+                              "but gives %s" % (kind, op, blocked[0] or kind, res))
+            elif o == "r" and not blocked and not ok:
+                viol(dict(case, step=i), "%s: lock_read (%s) refused: %s" % (kind, op, res))
         bal_before = dict(bal)
-        if ok:
+        if ok and auxwant is None:
             if o == "u":
                 bal[tgt] -= 1
             else:
                 if bal[tgt] > 0:
                     nontrivial = True
                 bal[tgt] += 1
-            for k in (["b", "p+"] if kind == "branch" else [""]):
-                if _holders(k, bal_before) == 0 and _holders(k, bal) > 0:
-                    mode[k] = "r" if o == "r" else "w"
+            for k, m in subj.modes(tgt, o).items():
+                if subj.holders(k, bal_before) == 0 and subj.holders(k, bal) > 0:
+                    mode[k] = m
+        subj.aux_done(o, ok, bal)
         # --- is_locked and edge-triggered physical events
         layers = subj.layers()
         for j, (name, key, locked, log, anomalies) in enumerate(layers):
             new = log[prev_logs[j]:]
             prev_logs[j] = len(log)
             if anomalies:
-                ctx.violation(dict(case, step=i), "%s: %s: %s" % (kind, name, anomalies[0]))
+                viol(dict(case, step=i), "%s: %s: %s" % (kind, name, anomalies[0]))
                 del anomalies[:]
             if key is None:
                 continue
-            holders, holders_before = _holders(key, bal), _holders(key, bal_before)
+            holders, holders_before = subj.holders(key, bal), subj.holders(key, bal_before)
             if locked != (holders > 0):
-                ctx.violation(dict(case, step=i), "%s: %s: is_locked()=%s with %d holder(s)" % (kind, name, locked, holders),
-                              family=classify(kind, op, bal_before, below))
+                viol(dict(case, step=i), "%s: %s: is_locked()=%s with %d holder(s)" % (kind, name, locked, holders),
+                              family=fam)
             net = "".join(new)
             while "RU" in net or "WU" in net or "TU" in net:   # a lock taken and given back within one call
                 net = net.replace("RU", "").replace("WU", "").replace("TU", "")
@@ -570,18 +899,22 @@ def run_sequence(ctx, subj, ext, ops, record=True):
             else:
                 want = net == ""
             if not want and ok:
-                ctx.violation(dict(case, step=i), "%s: %s: physical events %r on a %d->%d holder transition"
-                              % (kind, name, "".join(new), holders_before, holders))
+                viol(dict(case, step=i), "%s: %s: physical events %r on a %d->%d holder transition"
+                              % (kind, name, "".join(new), holders_before, holders), family=fam)
         obs.append(res + "/" + subj.dump())
     if record:
         ctx.case(case, nontrivial=nontrivial)
-        ctx.count("%s:len=%d" % (kind, len(ops)))
+        ctx.count("%s:len=%d" % (kind, min(len(ops), 12)))
+        if rb:
+            ctx.count("%s:read-blocked=%s" % (kind, rb))
         for ob in obs:
             ctx.count("%s:res=%s" % (kind, ob.split("/")[0].split(":")[0] + (":" + ob.split("/")[0].split(":")[1] if ob.startswith("E:") else "")))
-    mkind = kind
+    mkind = subj.model_kind()
     if kind == "branch" and branch_variant(subj) == "guarded":
         mkind = "branchG"
-    return case, "%s %s %s" % (mkind, "T" if ext else "F", ",".join(ops) or "-"), ";".join(obs) or "-"
+    if kind == "ftree":
+        mkind = "treeG" if ftree_variant(subj) == "guarded" else "tree"
+    return case, "%s %s%s %s" % (mkind, "T" if ext else "F", rb, ",".join(ops) or "-"), ";".join(obs) or "-"
 
 
 # ---------------------------------------------------------------- fake-free working tree stack
@@ -665,16 +998,16 @@ def tree_sequence(ctx, path, ops, state=_tree_state):
             if res != "ok":
                 nontrivial = True
                 if after != before:
-                    ctx.violation(dict(case, step=i), "tree stack: refused call %s (%s) changed the lock state: %r -> %r"
+                    report(ctx, dict(case, step=i), "tree stack: refused call %s (%s) changed the lock state: %r -> %r"
                                   % (op, res, before, after), family=classify("tree", op, bal, below))
                     break   # the balances no longer describe the stack
                 if o == "u" and bal[tgt] > 0:
-                    ctx.violation(dict(case, step=i), "tree stack: unlock of a held lock refused: %s" % res)
+                    report(ctx, dict(case, step=i), "tree stack: unlock of a held lock refused: %s" % res)
             else:
                 if o == "u" and bal[tgt] == 0:
                     held_via = (bal["t"] if tgt == "b" else (1 if bal["t"] + bal["b"] > 0 else 0) if tgt == "p" else 0)
                     if held_via == 0:
-                        ctx.violation(dict(case, step=i), "tree stack: unlock %s with no lock held succeeded" % op)
+                        report(ctx, dict(case, step=i), "tree stack: unlock %s with no lock held succeeded" % op)
                     # else: the caller released a lock that an upper layer holds (caller misuse)
                     break
                 bal[tgt] += -1 if o == "u" else 1
@@ -684,12 +1017,12 @@ def tree_sequence(ctx, path, ops, state=_tree_state):
                    bal["p"] + (1 if bal["t"] + bal["b"] > 0 else 0) > 0)
             got = (after[0], after[3], after[6])
             if got != exp:
-                ctx.violation(dict(case, step=i), "tree stack: is_locked() of (tree, branch, repository) = %r, "
+                report(ctx, dict(case, step=i), "tree stack: is_locked() of (tree, branch, repository) = %r, "
                               "holders say %r" % (got, exp), family=classify("tree", op, bal, below))
                 break
             phys_exp = after[3] and after[5] == "w"
             if after[9] != phys_exp:
-                ctx.violation(dict(case, step=i), "tree stack: branch physical lock status %s but write-locked=%s"
+                report(ctx, dict(case, step=i), "tree stack: branch physical lock status %s but write-locked=%s"
                               % (after[9], phys_exp))
         # release everything that is still held
         for t in ("t", "b", "p"):
@@ -717,6 +1050,24 @@ FIXED = [
     dict(kind="branch", ext=False, ops=["pr", "bu"]),
     dict(kind="branch", ext=False, ops=["br", "bw", "pw", "bu", "pu", "bwB", "bwA"]),
     dict(kind="branch", ext=True, ops=["bw", "bwA", "pr", "bu", "bu", "pu"]),
+    # a refusing physical read lock: nothing changes, the repository lock taken first is given back
+    dict(kind="lf", ext=False, rb="x", ops=["r", "w", "r", "u", "u", "r"]),
+    dict(kind="repo", ext=False, rb="x", ops=["r", "w", "r", "u", "r", "u", "r"]),
+    dict(kind="branch", ext=False, rb="c", ops=["br", "pr", "br", "bw", "br", "bu", "bu", "pu"]),
+    dict(kind="branch", ext=False, rb="p", ops=["br", "pw", "br", "bu", "pu", "pr"]),
+    # write groups; the witnesses of the two untriaged findings first
+    dict(kind="repow", ext=False, ops=["w", "g", "u"]),
+    dict(kind="repow", ext=False, ops=["g", "r", "g", "u", "w", "w", "g", "g", "a", "a", "g", "u", "r", "u", "u"]),
+    dict(kind="branchs", ext=False, ops=["bw", "bu"]),
+    dict(kind="branchs", ext=False, ops=["br", "br", "bu", "pr", "bu", "pu"]),
+    # working tree over branch over repository (recording fakes on all three locks)
+    dict(kind="ftree", ext=False, ops=["br", "tu"]),       # tree_over_unlock_witness
+    dict(kind="ftree", ext=False, ops=["tr", "tw", "tt", "tr", "tu", "tu", "tu"]),
+    dict(kind="ftree", ext=False, ops=["tt", "tr", "tw", "bw", "tu", "tu", "tw", "tr", "tt", "bu", "tu", "tu", "tu"]),
+    dict(kind="ftree", ext=True, ops=["tt", "tw", "tr", "bwA", "tr", "tu", "bu", "tu"]),
+    dict(kind="ftree", ext=False, rb="t", ops=["tr", "br", "tr", "tt", "tr", "tu", "tu", "bu"]),
+    dict(kind="ftree", ext=False, rb="c", ops=["tr", "tt", "pr", "tr", "tw", "tr", "tu", "tu", "pu"]),
+    dict(kind="ftree", ext=False, rb="p", ops=["tr", "tt", "tw", "tr", "tu", "tu"]),
 ]
 
 
@@ -736,8 +1087,8 @@ def run(ctx, bounds=None, tree=True):
     subs = _subjects()
     cases, lines, outs = [], [], []
 
-    def one(kind, ext, ops):
-        c, l, o = run_sequence(ctx, subs[kind], ext, ops)
+    def one(kind, ext, ops, rb=""):
+        c, l, o = run_sequence(ctx, subs[kind], ext, ops, rb=rb)
         cases.append(c)
         lines.append(l)
         outs.append(o)
@@ -763,37 +1114,64 @@ def run(ctx, bounds=None, tree=True):
             ctx.extra.setdefault("skipped_after_violation", []).append("%s: %s" % (kind, _exc(e)))
             del cases[:], lines[:], outs[:]
 
-    bounds = bounds or dict(cl=ctx.pick(6, 7), lf=ctx.pick(6, 7), repo=ctx.pick(5, 6), branch=ctx.pick(4, 5))
+    bounds = bounds or dict(cl=ctx.pick(6, 7), lf=ctx.pick(6, 7), repo=ctx.pick(5, 6), branch=ctx.pick(4, 5),
+                            repow=ctx.pick(3, 4), branchs=ctx.pick(3, 4), ftree=ctx.pick(3, 4))
+
+    def rbsets(kind):
+        fl = subs[kind].rbflags
+        return ["".join(c) for n in range(1, len(fl) + 1) for c in itertools.combinations(fl, n)]
 
     def part(kind, L):
         for c in _corpus():
             if c["kind"] == kind:
-                one(kind, c["ext"], c["ops"])
+                one(kind, c["ext"], c["ops"], c.get("rb", ""))
         alphabet = subs[kind].ops()
         for ext in (False, True):
             for ops in itertools.product(alphabet, repeat=L):
                 one(kind, ext, list(ops))
-        # shorter sequences are prefixes of these and are observed step by step
-        nrand = ctx.pick(1500, 15000) if kind in ("cl", "lf") else ctx.pick(600, 6000)
+        # shorter sequences are prefixes of these and are observed step by step.
+        # every set of read-refusing physical locks: one layer less
+        for rb in rbsets(kind):
+            for ext in (False, True):
+                for ops in itertools.product(alphabet, repeat=L - 1):
+                    one(kind, ext, list(ops), rb)
+        nrand = ctx.pick(1500, 15000) if kind in ("cl", "lf") else ctx.pick(200, 2000) \
+            if kind in ("repow", "branchs") else ctx.pick(600, 6000)
         for _ in range(nrand):
-            n = rng.randint(L + 1, 40)
+            n = rng.randint(L + 1, 40 if kind != "ftree" else 24)
             # biased towards deep nesting and towards the unlock edge
             wts = rng.choice([[3, 3, 1, 1, 3], [1, 1, 1, 1, 3], [4, 1, 1, 1, 2], [1, 4, 2, 1, 3]])
+            twts = rng.choice([[3, 2, 2, 3], [1, 1, 1, 3], [4, 1, 1, 2], [1, 3, 3, 3]])
+            tw = [5, 2, 1] if kind == "ftree" else None
             ops = []
             for _ in range(n):
-                o = rng.choices(OPS, weights=wts)[0]
-                ops.append((rng.choice(subs[kind].targets)) + o)
-            one(kind, rng.random() < 0.4, ops)
+                t = rng.choices(subs[kind].targets, weights=tw)[0]
+                if t == "t":
+                    o = rng.choices(["r", "t", "w", "u"], weights=twts)[0]
+                elif kind == "repow" and rng.random() < 0.25:
+                    o = rng.choice("gga")
+                else:
+                    o = rng.choices(OPS, weights=wts)[0]
+                ops.append(t + o)
+            rb = rng.choice(rbsets(kind)) if rng.random() < 0.3 and rbsets(kind) else ""
+            one(kind, rng.random() < 0.4, ops, rb)
         ctx.diff(cases, lines, outs)
         del cases[:], lines[:], outs[:]
 
+    import time
+    secs = ctx.extra.setdefault("part_seconds", {})
     for kind, L in bounds.items():
+        t0 = time.time()
         guarded(kind, lambda kind=kind, L=L: part(kind, L))
+        secs[kind] = round(time.time() - t0, 1)
     ctx.exhaustive = True
     ctx.extra["exhaustive_lengths"] = bounds
     ctx.extra["branch_unlock_variant"] = _variant[0] if _variant else None
+    ctx.extra["ftree_unlock_variant"] = _tvariant[0] if _tvariant else None
     if tree:
+        t0 = time.time()
         guarded("tree", lambda: tree_stack(ctx, ctx.pick(300, 3000), ctx.pick(12, 25)))
+        secs["tree"] = round(time.time() - t0, 1)
 
 
 def widen(ctx):
@@ -823,7 +1201,7 @@ def replay(ctx, case):
         return dict(case=case, note="working-tree stack case (real LockDirs): oracle only", impl=None, model=None,
                     oracle_failures=[v["what"] for v in ctx.violations])
     subs = _subjects()
-    c, line, out = run_sequence(ctx, subs[kind], case["ext"], case["ops"], record=False)
+    c, line, out = run_sequence(ctx, subs[kind], case["ext"], case["ops"], record=False, rb=case.get("rb", ""))
     model = ctx.model([line])[0]
     return dict(case=case, impl=out.split(";"), model=model.split(";"), agree=out == model,
                 oracle_failures=[v["what"] for v in ctx.violations])
